@@ -60,6 +60,9 @@ def _configs(tier):
     # the /data stream sparser than the checkpoints (and absent): checkpoints fall on steps that add rows to the vector
     # streams only, so "everything up to the checkpoint is on disk" has to hold for each stream on its own
     c["bomd_sparse_data"] = CR.default_cfg(engine="bomd", steps=6, out=dict(data=5, coordinates=1, velocities=1, forces=2, xyz=0, checkpoint_every=2))
+    # more than 10 steps with the checkpoint at step 10: a frame header cut inside its step number ("step: 11" -> "step: 1")
+    c["bomd_xyz_bytes"] = CR.default_cfg(engine="bomd", steps=12, out=dict(data=0, coordinates=0, velocities=0, forces=0, xyz=1, checkpoint_every=10))
+    c["bomd_xyz_bytes"]["tear_xyz"] = True
     if tier == "thorough":
         c["bomd_no_data"] = CR.default_cfg(engine="bomd", steps=5, out=dict(data=0, coordinates=1, velocities=2, forces=1, xyz=2, checkpoint_every=2))
         c["ksa"] = CR.default_cfg(engine="ksa", k=4, steps=6, seed=2, mols=["H2O"])
@@ -312,6 +315,16 @@ def explore_all(chk, spaces, tier):
                     k, d = _store({a: bytes(b) for a, b in files.items()}, sp.cname)
                     sp.edges += 1
                     sp.add(k, d, 1, f"torn-write#{n}@{cut}({ops[n - 1]['path'].split('.')[-1]}):hard")
+            # a text stream leaves the process through an 8 KiB buffer: its boundary can fall on ANY byte of a frame, so in
+            # the configuration that asks for it every byte cut of the XYZ writes after the first checkpoint is an image
+            if (sp.cfg.get("tear_xyz") and n > 0 and ops[n - 1]["kind"] in (1, 2) and ops[n - 1]["path"].endswith(".xyz")
+                    and first_pub is not None and n >= first_pub):  # fmt: skip
+                for cut in range(1, len(ops[n - 1]["payload"])):
+                    files = CR.apply_ops(ops[:n], torn=cut)
+                    k, d = _store({a: bytes(b) for a, b in files.items()}, sp.cname)
+                    sp.edges += 1
+                    sp.add(k, d, 1, f"torn-write#{n}@{cut}(xyz-byte):hard")
+                    _MUST[(sp.cname, k)] = True
         sp.n_journal_states = len(sp.states)
     # phase 2: depth 1b soft crashes at program points of the first run
     items = []
